@@ -345,6 +345,11 @@ class Interp:
         return val
 
     def arith(self, op, a, b, node, isfloat):
+        if not isfloat and op == "&":
+            # masking with a non-negative constant bounds the result whatever the other operand is
+            for x in (a, b):
+                if isinstance(x, I) and x.is_const() and x.lo >= 0:
+                    return I(0, x.lo)
         if isinstance(a, Top) or isinstance(b, Top):
             return TOP
         if isfloat:
@@ -416,6 +421,8 @@ class Interp:
                 if x.is_const() and x.lo >= 0:
                     return I(0, x.lo)
             return TOP
+        if op == ">>" and b.is_const() and b.lo >= 0 and a.lo >= 0 and a.hi < INF:
+            return I(a.lo >> b.lo, a.hi >> b.lo)
         if op in (">>", "<<"):
             return TOP
         return TOP
